@@ -2558,14 +2558,30 @@ impl StorageEngine {
                     if !expired_keys.is_empty() {
                         let mut shard_guard = shard.write().unwrap();
                         for key in expired_keys {
-                            if let Some(stored_value) = shard_guard.data.remove(&key) {
-                                shard_guard.expiring_keys.remove(&key);
-                                
-                                shard_guard.mark_modified(&key);
-                                
-                                // Update memory usage
-                                let memory_size = engine.calculate_value_size(&key, &stored_value.value);
-                                engine.memory_manager.remove_memory(memory_size);
+                            // The lock was released between the scan and here, and the index can be stale:
+                            // remove a key only if the value stored NOW has expired
+                            let stored_deadline = shard_guard.data.get(&key)
+                                .map(|v| (v.is_expired(), v.metadata.expires_at));
+                            match stored_deadline {
+                                Some((true, _)) => {
+                                    if let Some(stored_value) = shard_guard.data.remove(&key) {
+                                        shard_guard.expiring_keys.remove(&key);
+                                        
+                                        shard_guard.mark_modified(&key);
+                                        
+                                        // Update memory usage
+                                        let memory_size = engine.calculate_value_size(&key, &stored_value.value);
+                                        engine.memory_manager.remove_memory(memory_size);
+                                    }
+                                }
+                                // the deadline was moved: keep the index in step with it
+                                Some((false, Some(expires_at))) => {
+                                    shard_guard.expiring_keys.insert(key, expires_at);
+                                }
+                                // the TTL was removed or the key is gone: drop the stale index entry
+                                _ => {
+                                    shard_guard.expiring_keys.remove(&key);
+                                }
                             }
                         }
                     }
